@@ -426,9 +426,105 @@ def run_borrowed(case):
                       'activations': sess.n}}
 
 
+def run_snapshots(case):
+    """conditions on resource levels whose operand is a snapshot taken from `resources.levels`
+    (a baseline to compare with later): whatever happens to the supply afterwards, the snapshot
+    is what it was - the waiter resumes exactly when the levels relate to *it* as demanded"""
+    import usim
+    from usim import time, Resources, Scope
+    rng = random.Random('%s/%s/c08-snap' % (case['seed'], case['index']))
+    start_levels = {'a': rng.randint(1, 3), 'b': rng.randint(1, 3)}
+    how = rng.choice(['gt', 'ge-other', 'not-le', 'lt', 'ne'])
+    # the changes: (operation, amounts) one per time unit; the last one makes the condition true
+    if how == 'lt':
+        changes = [('increase', {'a': 1}), ('set', dict(start_levels)),
+                   ('set', {'a': start_levels['a'] - 1, 'b': start_levels['b'] - 1})]
+    elif how == 'ne':
+        changes = [('set', dict(start_levels)), ('increase', {'b': 1})]
+    else:
+        changes = [('set', dict(start_levels)), ('set', {'a': start_levels['a'] + 1}),
+                   ('set', {'a': start_levels['a'] + 1, 'b': start_levels['b'] + 2})]
+    rng.shuffle(changes[:-1])
+    log = []
+    violations = []
+
+    def relation(levels, baseline):
+        keys = sorted(baseline)
+        if how in ('gt', 'not-le'):
+            return (all(levels[k] > baseline[k] for k in keys) if how == 'gt'
+                    else not all(levels[k] <= baseline[k] for k in keys))
+        if how == 'ge-other':
+            return all(levels[k] >= baseline[k] + 1 for k in keys)
+        if how == 'lt':
+            return all(levels[k] < baseline[k] for k in keys)
+        return any(levels[k] != baseline[k] for k in keys)
+
+    async def main():
+        res = Resources(**start_levels)
+        baseline = res.levels                   # a snapshot, kept by the program
+        kept = {key: getattr(baseline, key) for key in start_levels}
+        if how == 'gt':
+            cond = res > baseline
+        elif how == 'not-le':
+            cond = ~(res <= baseline)
+        elif how == 'ge-other':
+            cond = res >= type(baseline)(**{k: v + 1 for k, v in kept.items()})
+        elif how == 'lt':
+            cond = res < baseline
+        else:
+            cond = res != baseline
+
+        async def waiter():
+            await cond
+            log.append(('resumed', time.now, {k: getattr(res.levels, k) for k in kept}))
+
+        async def driver():
+            for operation, amounts in changes:
+                await (time + 1)
+                await getattr(res, operation)(**amounts)
+                log.append(('snapshot', {k: getattr(baseline, k) for k in kept}))
+        async with Scope() as scope:
+            scope.do(waiter())
+            scope.do(driver())
+        log.append(('kept', kept))
+
+    sess = Session()
+    outcome = sess.run(main())
+    violations = [dict(v) for v in sess.violations if v['mechanism'].startswith('kernel-')]
+    what = 'condition %s on levels against a snapshot of resources.levels %s, changes %s' % (
+        how, start_levels, changes)
+    # when does the relation hold first, by plain arithmetic?
+    levels = dict(start_levels)
+    due = None
+    for number, (operation, amounts) in enumerate(changes):
+        for key, value in amounts.items():
+            levels[key] = value if operation == 'set' else levels[key] + value
+        if due is None and relation(levels, start_levels):
+            due = number + 1
+    resumed = [entry[1] for entry in log if entry[0] == 'resumed']
+    snapshots = [entry[1] for entry in log if entry[0] == 'snapshot']
+    if outcome[0] != 'ok':
+        violations.append({'mechanism': 'c08:run-failed', 'msg': '%s: %r' % (what, outcome[1])})
+    elif any(snap != start_levels for snap in snapshots):
+        violations.append({'mechanism': 'c08:bool-disagrees',
+                           'msg': '%s: the snapshot changed under the program: %s' % (
+                               what, snapshots)})
+    elif resumed != ([due] if due is not None else []):
+        violations.append({'mechanism': 'c08:missed-wakeup' if not resumed
+                           else 'c08:resumed-while-false',
+                           'msg': '%s: resumed at %s, the relation holds first at %s' % (
+                               what, resumed, due)})
+    for vio in violations:
+        vio['case'] = dict(case)
+    return {'evals': 1, 'sigs': [sess.signature()], 'violations': violations, 'sample': None,
+            'stats': {'snapshot_conditions': 1, 'activations': sess.n}}
+
+
 def run_case(case):
     if case['index'] % 25 == 24:
         return run_borrowed(case)
+    if case['index'] % 25 == 13:
+        return run_snapshots(case)
     program, exprs = build(case)
     sess = Session()
     holder = {}
